@@ -6,6 +6,18 @@ fn hex(b: &[u8]) -> String { b.iter().map(|x| format!("{x:02x}")).collect() }
 #[path = "../lct/mod.rs"]
 mod lct;
 
+/// (C17) the entry of the script file `$STANDIN_SCRIPT` for the `n`-th invocation of `prog`: (exit status, stdout, stderr)
+fn scripted(prog: &str, n: usize) -> Option<(i32, Vec<u8>, Vec<u8>)> {
+    let text = std::fs::read_to_string(std::env::var_os("STANDIN_SCRIPT")?).ok()?;
+    for line in text.lines() {
+        let p: Vec<&str> = line.split(' ').collect();
+        if p.len() == 5 && p[0] == prog && p[1].parse::<usize>().ok() == Some(n) {
+            return Some((p[2].parse::<u8>().ok()?.into(), lct::unhex(p[3].strip_prefix('h')?)?, lct::unhex(p[4].strip_prefix('h')?)?));
+        }
+    }
+    None
+}
+
 fn main() {
     use std::os::unix::ffi::OsStrExt;
     let args: Vec<std::ffi::OsString> = std::env::args_os().collect();
@@ -42,12 +54,31 @@ fn main() {
     if std::env::var("STANDIN_FAIL_AT").ok().and_then(|s| s.parse::<usize>().ok()) == Some(index) {
         code = Some(std::env::var("STANDIN_FAIL_STATUS").unwrap_or_else(|_| "7".into()));
     }
+    // (C16) fault script, inactive unless STANDIN_FAULTS is set: rules `<kind>.<selector>[.<status>]` joined by `+` select the
+    // invocations that fail, by sub-command and by position in the log / by the container they address (`lct::FaultRule`)
+    if let Ok(script) = std::env::var("STANDIN_FAULTS") {
+        if let Some(st) = lct::fault_status(&script, &name, &words, index, &before) { code = Some(st); }
+    }
     if let Ok(g) = std::env::var("STANDIN_GONE") {
         if let Some((prog, n)) = g.split_once(':') {
             if prog == name && n.parse::<usize>().ok() == Some(mine_before + 2) {
                 let _ = std::fs::remove_file(std::path::Path::new(&std::env::var_os("STANDIN_BIN").unwrap()).join(prog));
             }
         }
+    }
+    // (C17) per-invocation script, inactive unless STANDIN_SCRIPT names a file of lines `<prog> <n> <exit> <stdout-hex> <stderr-hex>`:
+    // the n-th (0-based, counted in the log) invocation of <prog> prints exactly these bytes and exits with <exit> (0..255),
+    // whatever the older switches say. A successful `docker port` keeps its flavour's stdout (libcnb-test parses it).
+    // What a scripted invocation printed is appended to $STANDIN_OUTLOG as `<index> <exit> <stdout-hex> <stderr-hex>`.
+    if let Some((status, so, se)) = scripted(&name, mine_before) {
+        let so = if name == "docker" && status == 0 && words.first() == Some(&&b"port"[..]) { [&b"127.0.0.1:12345\n"[..], b"  0.0.0.0:49153 \n\n", b"[::1]:8080", b"0.0.0.0:49153\n[::]:49153\n"][flavour % 4].to_vec() } else { so };
+        if let Some(p) = std::env::var_os("STANDIN_OUTLOG") {
+            std::fs::OpenOptions::new().append(true).create(true).open(p).unwrap().write_all(format!("{index} {status} h{} h{}\n", hex(&so), hex(&se)).as_bytes()).unwrap();
+        }
+        std::io::stdout().write_all(&so).unwrap();
+        std::io::stdout().flush().unwrap();
+        std::io::stderr().write_all(&se).unwrap();
+        std::process::exit(status);
     }
     let out = std::io::stdout();
     let mut out = out.lock();
